@@ -15,7 +15,7 @@ use_repo()
 
 def gen(rng, static=True):
     w = make_world(rng, nuser=rng.randint(3, 7))
-    kinds = ["cls"] * 8 if static else ["cls"] * 6 + ["union", "inter", "exactly", "strict", "hasm", "pred"]
+    kinds = ["cls"] * 8 if static else ["cls"] * 6 + ["union", "inter", "exactly", "strict", "hasm", "pred", "fdep", "fdep", "lit"]
     g = TypeGen(w, rng, kinds=kinds)
     types = []
     for _ in range(rng.randint(2, 7)):
@@ -23,6 +23,14 @@ def gen(rng, static=True):
         # equal types are one registration (Exactly[A] written twice is one type since the fix for D22)
         if w.tyj(t) not in [w.tyj(x) for x in types]:
             types.append(t)
+    # value-dependent checks with wildcards (Any) in crossing places: neither is more specific than the other
+    for t in list(types):
+        if t[0] == "fdep" and len(t[2]) >= 2 and rng.random() < 0.8:
+            a, b2 = (t[2][0] if t[2][0] is not None else 0), (t[2][1] if t[2][1] is not None else 1)
+            for ps in rng.sample([[a, None], [None, b2], [a, b2]], 2):
+                u = ["fdep", t[1], ps + list(t[2][2:]), t[3]]
+                if w.tyj(u) not in [w.tyj(x) for x in types]:
+                    types.append(u)
     rng.shuffle(types)
     queries = [["cls", c] for c in range(w.n)]
     return w, {"types": types, "queries": queries}
